@@ -79,6 +79,9 @@ func reachesWithinIteration(a, b ssa.Instruction) bool {
 
 func c01(p *core.Program, r *core.Report) {
 	geomFns := pkgFuncs(p, "")
+	// "any decoder": the IGC parser grows its flat array fix by fix (the other decoders go through SetCoords, Push or
+	// readers that size the array as count*stride) - the rule is C19's, the obligation is also this property's
+	wholeFixRule(p, r, "fix-appended-whole")
 
 	// ---- rule 1: stride-mismatch rejection guards every store of a caller-supplied coordinate
 	const r1 = "stride-guard"
